@@ -561,6 +561,40 @@ func ruleRegionsInfoDiscipline(c *Ctx) {
 	leader := P.Field("server/core", "RegionInfo", "leader")
 	okLeader := hasComparison(sh, "!=", func(v ssa.Value) bool { return derivesFrom(v, loadOfField(leader), 3) }, func(v ssa.Value) bool { return derivesFrom(v, loadOfField(leader), 3) })
 	c.Check(nEq == 3 && okLeader, rule, fnName(sh), "sub-trees are rebuilt when the leader, the voters, the learners or the pending peers differ", P.pos(sh.Pos()), fmt.Sprintf("%d of 3 peer-set comparisons, leader compared: %v", nEq, okLeader))
+	// …as a truth table: for each of the 16 combinations of (leader differs, voters equal, learners equal, pending
+	// peers equal) the function, evaluated abstractly (ordeval.go), says "rebuild" exactly when something differs
+	getID := F(P.Method("github.com/pingcap/kvproto/pkg/metapb", "Peer", "GetId"))
+	okTT, ttDetail := true, ""
+	for m := 0; m < 16; m++ {
+		leaderNE, eqV, eqL, eqP := m&1 != 0, m&2 != 0, m&4 != 0, m&8 != 0
+		want := leaderNE || !eqV || !eqL || !eqP
+		got, okE := ordEval(sh, nil, ordAssume{
+			cmp: func(x, y ssa.Value) (int, bool) {
+				if valueIsCallTo(x, getID) && valueIsCallTo(y, getID) {
+					if leaderNE {
+						return 1, true
+					}
+					return 0, true
+				}
+				return 0, false
+			},
+			call: func(cl *ssa.Call) (ordVal, bool) {
+				if !peersEq.Match(cl.Common()) || len(cl.Call.Args) != 2 {
+					return ordVal{}, false
+				}
+				for i, g := range []Callee{ri("GetVoters"), ri("GetLearners"), ri("GetPendingPeers")} {
+					if valueIsCallTo(cl.Call.Args[0], g) && valueIsCallTo(cl.Call.Args[1], g) {
+						return ordVal{b: []bool{eqV, eqL, eqP}[i], kind: 'b'}, true
+					}
+				}
+				return ordVal{}, false
+			}}, 2)
+		if !okE || got.kind != 'b' || got.b != want {
+			okTT = false
+			ttDetail = fmt.Sprintf("leader differs=%v voters equal=%v learners equal=%v pending equal=%v: answers %v (evaluated: %v), want %v", leaderNE, eqV, eqL, eqP, got.b, okE, want)
+		}
+	}
+	c.Check(okTT, rule, "truth table of "+fnName(sh), "rebuild ⇔ the leader differs ∨ some peer set differs (all 16 combinations)", P.pos(sh.Pos()), ttDetail)
 	// range change is detected on both keys
 	okKeys := 0
 	for _, g := range []Callee{ri("GetStartKey"), ri("GetEndKey")} {
